@@ -287,7 +287,7 @@ class Sim:
         '''ledger ground truth: released (this epoch) and not yet applied/dropped'''
         return [
             r for r in self.releases
-            if r.state in ('released', 'queued', 'handed', 'replied')
+            if r.state in ('released', 'queued', 'handed', 'replied') and not getattr(r, 'stale', False)
         ]
 
     def inflight_keys(self):
@@ -715,7 +715,7 @@ class Driver:
         if op == 'status':
             return {'op': 'status', 'w': rng.choice(sorted(x.wid for x in busy))}
         if op == 'advance':
-            return {'op': 'advance', 'dt': rng.choice([1, 5, 60, 3600, 86400])}
+            return {'op': 'advance', 'dt': rng.choice([1, 5, 60, 3600, 86400, 3 * 86400])}
         if op == 'lifecycle':
             st = sim.world.fsm.state
             if st == 'running':
@@ -746,7 +746,8 @@ class Driver:
 DEFAULT_PROFILE = {
     'weights': {
         'reply': 5, 'dispatch': 4, 'connect': 3, 'run': 1.2, 'rerun_inflight': 0.6,
-        'add_target': 0.15, 'disconnect': 0.2, 'status': 0.2, 'advance': 0.0, 'organize': 0.3,
+        'add_target': 0.15, 'disconnect': 0.2, 'status': 0.2, 'advance': 0.25, 'organize': 0.3,
+        'reload': 0.04,
     },
     'p_fail': 0.12,
     'p_invalid': 0.08,
